@@ -488,9 +488,29 @@ def check_folder(f: FuncInfo, r3) -> None:
                     return any(name_bounded(v) for v in c.values)
                 if isinstance(c, ast.Compare):
                     operands = [c.left] + list(c.comparators)
-                    return any(isinstance(o, (ast.Lt, ast.LtE)) and isinstance(operands[i], ast.Name) and operands[i].id == count for i, o in enumerate(c.ops))
+                    return any(isinstance(o, (ast.Lt, ast.LtE)) and is_count(operands[i]) for i, o in enumerate(c.ops))
+                return False
+
+            def is_count(e, magnitude_only=False) -> bool:
+                if isinstance(e, ast.Call) and isinstance(e.func, ast.Name) and e.func.id == "abs" and len(e.args) == 1:
+                    return isinstance(e.args[0], ast.Name) and e.args[0].id == count
+                return not magnitude_only and isinstance(e, ast.Name) and e.id == count
+
+            def bounded_below(c) -> bool:
+                if isinstance(c, ast.BoolOp) and isinstance(c.op, ast.And):
+                    return any(bounded_below(v) for v in c.values)
+                if isinstance(c, ast.Compare):
+                    operands = [c.left] + list(c.comparators)
+                    for i, o in enumerate(c.ops):
+                        if isinstance(o, (ast.Lt, ast.LtE)) and is_count(operands[i], magnitude_only=True):
+                            return True  # abs(count) <= bound
+                        if isinstance(o, (ast.Lt, ast.LtE)) and is_count(operands[i + 1]) and not is_count(operands[i + 1], magnitude_only=True):
+                            return True  # bound <= count
+                        if isinstance(o, (ast.Gt, ast.GtE)) and is_count(operands[i]) and not is_count(operands[i], magnitude_only=True):
+                            return True  # count >= bound
                 return False
             obligations.append(("upper bound on the repetition count itself (OverflowError: the count must fit an index even when the sequence is empty)", any(name_bounded(c) for c in conj) or caught("OverflowError")))
+            obligations.append(("lower bound on the repetition count (OverflowError for a count below -2**63, although the result is empty)", any(bounded_below(c) for c in conj) or caught("OverflowError")))
         for what, ok in obligations:
             key = f"{f.qualname}: {norm(n)} [{'/'.join(sorted(lt))} , {'/'.join(sorted(rt))}] needs {what}"
             if ok:
